@@ -203,3 +203,23 @@ Example ex_block_var_then_let_accepted :
   exists p, run_events [EEnter true; EEnter false; EEnter false; EDeclare VariableDecl 7; EExit;
                         EDeclare LexicalDecl 7] = Running p.
 Proof. vm_compute. eexists. reflexivity. Qed.
+
+(* ---- class static blocks ------------------------------------------------------------------------------------------ *)
+(* parseClassElement opens a FUNCTION scope for a static block (enterScope(.., true)), parses the statement list and
+   exits; binding programs write it as a function without parameters, Func None Done b, whose linearisation has a
+   MarkFuncArgs after the enterScope.  On a scope just entered MarkFuncArgs changes nothing: *)
+Lemma list_set_last {A} (l : list A) x y : list_set (l ++ [x]) (length l) y = l ++ [y].
+Proof. induction l as [|a t IH]; cbn; [reflexivity|]. rewrite IH. reflexivity. Qed.
+
+Lemma static_block_mark_noop p :
+  match enter_scope p true with
+  | Ok p1 => pstep p1 EMarkArgs = Running p1
+  | _ => True
+  end.
+Proof.
+  unfold enter_scope. cbn [rbind salloc fst]. destruct p as [[vs scs] cur log]. cbn [pst pcur plog scopes vars].
+  cbn [pstep pcur pst plog]. unfold mark_args, sget. cbn [scopes].
+  rewrite nth_error_app2 by lia. rewrite Nat.sub_diag. cbn [nth_error rbind of_res].
+  unfold sset. cbn [vars scopes sparent sfunc sdeclared sundeclared nfordecls nfuncargs narguses].
+  rewrite list_set_last. reflexivity.
+Qed.
